@@ -3,7 +3,7 @@
    any deterministic interpretation of the data-dependent parts, any global generator state, any
    interleaved activity [env] on the global generator. *)
 From Coq Require Import List Arith ZArith Bool.
-From TLV Require Import Model.Draws Proofs.DrawsProofs.
+From TLV Require Import Model.Draws Proofs.DrawsProofs Proofs.DrawsProofsSem.
 Import ListNotations.
 
 (* check_random_state: None -> the global generator, int -> a fresh object seeded with it (nothing else
@@ -109,6 +109,85 @@ Theorem C16_skeletons_global_free : forall (e : ep) (o : opts) (p : aparam),
 Proof. exact skeleton_gf. Qed.
 Print Assumptions C16_skeletons_global_free.
 
+(* ------------------------------------------------------------------ the SEMANTIC criterion (no static analysis) *)
+
+(* for ANY skeleton, interpretation and random_state: if the semantics without a global generator is defined,
+   the whole-process semantics returns exactly its outcome under every global state and every interleaving,
+   logs no global draw, and the global generator sees the environment's steps only *)
+Theorem C16_local_semantics_exact : forall (gstate value req : Type) (draw : req -> gstate -> value * gstate) (seed : Z -> gstate)
+    (I : interp value req) (sk : skel) (a : rsarg gstate) (o : outcome gstate value),
+  call_local gstate value req draw seed I sk a = Some o ->
+  ~ In GGlobal (o_srcs o) /\
+  exists k, forall env g, call gstate value req draw seed env I sk a g = (o, advance gstate env 0 k g).
+Proof. exact call_local_agrees. Qed.
+Print Assumptions C16_local_semantics_exact.
+
+(* ... and it is undefined EXACTLY when the run logs a draw from the global generator: the source log -- the
+   quantity corr:C16 observes on the implementation -- decides whether the call was global-free *)
+Theorem C16_trace_criterion : forall (gstate value req : Type) (draw : req -> gstate -> value * gstate) (seed : Z -> gstate)
+    (I : interp value req) (sk : skel) (a : rsarg gstate) (env : nat -> gstate -> gstate) (g : gstate),
+  In GGlobal (o_srcs (fst (call gstate value req draw seed env I sk a g))) <-> call_local gstate value req draw seed I sk a = None.
+Proof. exact call_trace_criterion. Qed.
+Print Assumptions C16_trace_criterion.
+
+(* one run whose source log does not contain the global generator => every run of the same call (any global
+   state, any interleaved use of the global generator) returns the same outcome and, left alone, does not move
+   the global generator *)
+Theorem C16_trace_reproducible : forall (gstate value req : Type) (draw : req -> gstate -> value * gstate) (seed : Z -> gstate)
+    (I : interp value req) (sk : skel) (a : rsarg gstate) (env : nat -> gstate -> gstate) (g : gstate),
+  ~ In GGlobal (o_srcs (fst (call gstate value req draw seed env I sk a g))) ->
+  (forall env' g', fst (call gstate value req draw seed env' I sk a g') = fst (call gstate value req draw seed env I sk a g)) /\
+  (forall g', snd (call gstate value req draw seed (fun _ x => x) I sk a g') = g').
+Proof. exact call_trace_reproducible. Qed.
+Print Assumptions C16_trace_reproducible.
+
+(* conversely, for a generator whose drawn value determines the state it was in (hypothesis [value_injective];
+   the toy counter generator satisfies it, see C16_observable_nonvacuous -- nothing is claimed about MT19937),
+   a logged global draw is observable: the drawn values differ between ANY two different global states.  With the
+   three theorems above: for such generators, reproducible <=> no global draw <=> local semantics defined *)
+Theorem C16_global_draw_observable : forall (gstate value req : Type) (draw : req -> gstate -> value * gstate) (seed : Z -> gstate),
+  value_injective gstate value req draw ->
+  forall (I : interp value req) (sk : skel) (a : rsarg gstate),
+    call_local gstate value req draw seed I sk a = None ->
+    forall g g', g <> g' ->
+      o_hist (fst (call gstate value req draw seed (idenv0 gstate) I sk a g)) <>
+      o_hist (fst (call gstate value req draw seed (idenv0 gstate) I sk a g')).
+Proof. exact global_draw_observable. Qed.
+Print Assumptions C16_global_draw_observable.
+
+(* histories, any kind of random_state: a call whose local semantics is defined on the caller's generator objects
+   as they are at that moment ([state_at]) returns exactly that outcome *)
+Theorem C16_history_results_any : forall (gstate value req : Type) (draw : req -> gstate -> value * gstate) (seed : Z -> gstate)
+    (h : list (event gstate value req)) (g : gstate) (insts : list gstate) (i : nat) (ip : interp value req) (sk : skel) (a : hrs)
+    (o : outcome gstate value),
+  nth_error h i = Some (ECall ip sk a) ->
+  call_local gstate value req draw seed ip sk (resolve gstate a (snd (state_at gstate value req draw seed h i g insts))) = Some o ->
+  nth_error (fst (fst (run_hist gstate value req draw seed h g insts))) i = Some (Some o).
+Proof. exact history_results_sem. Qed.
+Print Assumptions C16_history_results_any.
+
+(* fit twice / call twice in one process: same entry point, same arguments, same int seed => same outcome,
+   wherever the two calls occur *)
+Theorem C16_fit_twice : forall (gstate value req : Type) (draw : req -> gstate -> value * gstate) (seed : Z -> gstate)
+    (h : list (event gstate value req)) (g : gstate) (insts : list gstate) (i j : nat) (ip : interp value req) (sk : skel) (s : Z),
+  nth_error h i = Some (ECall ip sk (RInt s)) -> nth_error h j = Some (ECall ip sk (RInt s)) ->
+  global_free sk PInt = true ->
+  nth_error (fst (fst (run_hist gstate value req draw seed h g insts))) i =
+  nth_error (fst (fst (run_hist gstate value req draw seed h g insts))) j /\
+  nth_error (fst (fst (run_hist gstate value req draw seed h g insts))) i = Some (call_local gstate value req draw seed ip sk (HInt s)).
+Proof. exact history_same_seed_same_result. Qed.
+Print Assumptions C16_fit_twice.
+
+(* two different processes (different global states, different histories, different caller objects) *)
+Theorem C16_two_processes : forall (gstate value req : Type) (draw : req -> gstate -> value * gstate) (seed : Z -> gstate)
+    (h h' : list (event gstate value req)) (g g' : gstate) (insts insts' : list gstate) (i j : nat) (ip : interp value req) (sk : skel) (s : Z),
+  nth_error h i = Some (ECall ip sk (RInt s)) -> nth_error h' j = Some (ECall ip sk (RInt s)) ->
+  global_free sk PInt = true ->
+  nth_error (fst (fst (run_hist gstate value req draw seed h g insts))) i =
+  nth_error (fst (fst (run_hist gstate value req draw seed h' g' insts'))) j.
+Proof. exact histories_same_seed_same_result. Qed.
+Print Assumptions C16_two_processes.
+
 (* ------------------------------------------------------------------ non-vacuity and sensitivity *)
 
 (* the hypotheses are satisfiable and the skeletons really draw: parafac with randomized SVD init, mask and
@@ -150,3 +229,32 @@ Proof. split; [reflexivity|]. exists 0%Z, 1%Z. vm_compute; discriminate. Qed.
 Example C16_power_iteration_not_seedable :
   seedable E_power_iteration = false /\ global_free (skeleton E_power_iteration ex_opts) PInt = false.
 Proof. split; reflexivity. Qed.
+
+(* the semantic criterion is not vacuous: on the toy generator (value-injective) the repaired parafac skeleton has
+   a defined local semantics, the old one does not, and the old one's draws differ between ANY two global states *)
+Example C16_observable_nonvacuous :
+  value_injective Z Z nat toy_draw /\
+  (exists o, call_local Z Z nat toy_draw toy_seed toy_interp (skeleton E_parafac ex_opts) (HInt 3%Z) = Some o /\ length (o_hist o) = 12) /\
+  call_local Z Z nat toy_draw toy_seed toy_interp (sk_parafac_old ex_opts) (HInt 3%Z) = None /\
+  call_local Z Z nat toy_draw toy_seed toy_interp (skeleton E_parafac ex_opts) HNone = None /\
+  (forall g g', g <> g' ->
+     o_hist (fst (call Z Z nat toy_draw toy_seed (idenv0 Z) toy_interp (sk_parafac_old ex_opts) (HInt 3%Z) g)) <>
+     o_hist (fst (call Z Z nat toy_draw toy_seed (idenv0 Z) toy_interp (sk_parafac_old ex_opts) (HInt 3%Z) g'))).
+Proof.
+  split; [exact toy_value_injective|]. split; [eexists; split; vm_compute; reflexivity|].
+  split; [vm_compute; reflexivity|]. split; [vm_compute; reflexivity|].
+  apply (global_draw_observable Z Z nat toy_draw toy_seed toy_value_injective). vm_compute; reflexivity.
+Qed.
+
+(* an estimator that would resolve its seed EAGERLY (self.random_state = check_random_state(seed) in __init__, i.e.
+   one generator object created once and passed to every fit) is not reproducible across fits, whereas keeping the
+   int and resolving it inside fit (what the code does: E_estimator = Call ARaw) is: the model tells them apart *)
+Example C16_eager_seed_resolution_refuted :
+  let sk := skeleton (E_estimator E_cp_regressor) ex_opts in
+  let lazy_h := [ECall toy_interp sk (RInt 3%Z); EEnv (fun g => (g + 5)%Z); ECall toy_interp sk (RInt 3%Z)] in
+  let eager_h := [ENew 3%Z; ECall toy_interp sk (RInst 0); EEnv (fun g => (g + 5)%Z); ECall toy_interp sk (RInst 0)] in
+  nth_error (fst (fst (run_hist Z Z nat toy_draw toy_seed lazy_h 0%Z []))) 0 =
+  nth_error (fst (fst (run_hist Z Z nat toy_draw toy_seed lazy_h 0%Z []))) 2 /\
+  nth_error (fst (fst (run_hist Z Z nat toy_draw toy_seed eager_h 0%Z []))) 1 <>
+  nth_error (fst (fst (run_hist Z Z nat toy_draw toy_seed eager_h 0%Z []))) 3.
+Proof. split; [vm_compute; reflexivity | vm_compute; discriminate]. Qed.
